@@ -21,6 +21,7 @@ def idx? (t : String) : Option Nat := if t.startsWith "S" then (t.drop 1).toStri
 def step (s : St) : List String → St × List String
   | ["params", _] => (s, ["ok"])
   | ["vals", _] => (s, ["ok"])
+  | ["wide", _] => (s, ["ok"])
   | ["elem", p, v] =>
     match node? p, node? v with
     | some p, some v => ({ subs := s.subs.push (.elem ⟨p, v⟩) }, [s!"S{s.subs.size}"])
